@@ -89,6 +89,9 @@ def shards(tier, seed):
         # neighbourhood of every whole degree on [-360, 360] for the fine formats
         if R < 360:
             sh.append((tier, "sexa-degrees", "%%.%dm" % fl, fl, -360, 360))
+        # the same formats with a field width (one and two digits, zero-padded): the width is presentation only
+        for fmt in ("%%%d.%dm" % (fl + 4, fl), "%%0%d.%dm" % (fl + 6, fl), "%%%d.%dm" % (fl, fl)):
+            sh.append((tier, "sexa-degrees", fmt, fl, -90, 90))
     ef = exp_formats(tier)
     for i in range(0, len(ef), 6):
         sh.append((tier, "expfmt", tuple(ef[i : i + 6])))
